@@ -98,6 +98,19 @@ L10 == [name |-> "L10", linear |-> TRUE, vars |-> <<"x", "xl">>, logv |-> {}, sh
         roots |-> <<Q(1, 2), Q(1, 3), R(2), RZero>>, fwd |-> 1]
 L10Rk(k) == << <<HalfPow(k + 1)>>, <<RZero>> >>
 
+\* balanced growth, linearised (not linear=TRUE): log(a) = log(a{-1}) + 1/2 + ea (a unit root with drift) and
+\* log(b{+1}) - 5/2 log(b) + log(b{-1}) + log(a) = 0, whose stable solution is log(b) = 1/2 log(b{-1}) + log(a) + 1/2 because the expected
+\* path of log(a) rises by 1/2 a period.  The steady state is a path (log a = t/2, log b = t), the reduced-form constant K is not.
+L11 == [name |-> "L11", linear |-> FALSE, vars |-> <<"a", "b">>, logv |-> {"a", "b"}, shocks |-> <<"ea">>,
+        eqs |-> << [tx |-> << <<R(-1), 1, 0>>, <<R(1), 1, -1>> >>, te |-> << <<R(1), 1>> >>, c |-> Q(1, 2)],
+                   [tx |-> << <<R(1), 2, 1>>, <<Q(-5, 2), 2, 0>>, <<R(1), 2, -1>>, <<R(1), 1, 0>> >>, te |-> <<>>, c |-> RZero] >>,
+        mvars |-> <<"og", "oa">>, mshocks |-> <<"w">>,
+        meqs |-> << [tx |-> << <<R(1), 2, 0>>, <<R(-1), 2, -1>> >>, d |-> RZero, tw |-> <<>>],
+                    [tx |-> << <<R(1), 2, 0>>, <<R(-1), 1, -1>> >>, d |-> RZero, tw |-> << <<R(1), 1>> >>] >>,
+        T |-> << <<R(1), RZero>>, <<R(1), Q(1, 2)>> >>, K |-> <<Q(1, 2), R(1)>>,
+        roots |-> <<R(1), Q(1, 2), R(2)>>, fwd |-> 1]
+L11Rk(k) == << <<IF k = 0 THEN ROne ELSE RZero>>, <<HalfPow(k)>> >>
+
 \* root-count instances: both roots stable (indeterminate) / both unstable (no stable solution)
 L7 == [name |-> "L7", linear |-> TRUE, vars |-> <<"x">>, logv |-> {}, shocks |-> <<"ex">>,
        eqs |-> << [tx |-> << <<R(6), 1, 1>>, <<R(-5), 1, 0>>, <<R(1), 1, -1>> >>, te |-> << <<R(1), 1>> >>, c |-> RZero] >>,
@@ -106,10 +119,11 @@ L8 == [name |-> "L8", linear |-> TRUE, vars |-> <<"x">>, logv |-> {}, shocks |->
        eqs |-> << [tx |-> << <<R(1), 1, 1>>, <<R(-5), 1, 0>>, <<R(6), 1, -1>> >>, te |-> << <<R(1), 1>> >>, c |-> RZero] >>,
        mvars |-> <<>>, mshocks |-> <<>>, meqs |-> <<>>, T |-> <<>>, K |-> <<>>, roots |-> <<R(2), R(3)>>, fwd |-> 1]
 
-Model(id) == CASE id = "L1" -> L1 [] id = "L2" -> L2 [] id = "L3" -> L3 [] id = "L6" -> L6 [] id = "L9" -> L9 [] id = "L4" -> L4 [] id = "L10" -> L10
+Model(id) == CASE id = "L1" -> L1 [] id = "L2" -> L2 [] id = "L3" -> L3 [] id = "L6" -> L6 [] id = "L9" -> L9 [] id = "L4" -> L4 [] id = "L10" -> L10 [] id = "L11" -> L11
                [] id = "L7" -> L7 [] id = "L8" -> L8
-Rk(id, k) == CASE id = "L1" -> L1Rk(k) [] id = "L2" -> L2Rk(k) [] id = "L3" -> L3Rk(k) [] id = "L6" -> L6Rk(k) [] id = "L9" -> L9Rk(k) [] id = "L4" -> L4Rk(k) [] id = "L10" -> L10Rk(k)
+Rk(id, k) == CASE id = "L1" -> L1Rk(k) [] id = "L2" -> L2Rk(k) [] id = "L3" -> L3Rk(k) [] id = "L6" -> L6Rk(k) [] id = "L9" -> L9Rk(k) [] id = "L4" -> L4Rk(k) [] id = "L10" -> L10Rk(k) [] id = "L11" -> L11Rk(k)
 SolvableIds == {"L1", "L2", "L3", "L4", "L6", "L9", "L10"}
+GrowthIds == {"L11"}        \* steady state with a non-zero change
 
 \* ---- source text -----------------------------------------------------------------------------------
 RatStr(q) == IF q[2] = 1 THEN "(" \o ToString(q[1]) \o ")" ELSE "(" \o ToString(q[1]) \o "/" \o ToString(q[2]) \o ")"
